@@ -128,7 +128,20 @@ def work(item):
     three = three[:(15 if tier == 'quick' else 600)]
     nrun = 0
     seen_sig = set()
-    for h_ in hist + two + three + full_cache[:(25 if tier == 'quick' else 400)]:
+    # alignment family (deterministic, from the all-empty pre-state only): a block obtained by plain new[] (list constructor) is released, vectors
+    # of the same dimension are then created (they may be handed that block) and used under guarantee<NoAlias|EqualSizes|AlignedStorage>: the
+    # alignment the optimiser is told to assume (llvm.assume, asserted) must hold for library-allocated storage, whatever went through the cache
+    align_family = []
+    if (k0, k1) == ('empty', 'empty'):
+        for dd in sorted({dA, dB}):
+            for stmt in (0, 3):
+                fam = [Ins('DESTROY', t=0), Ins('FROMLIST', t=0, x=dd * dd, ext=2), Ins('DESTROY', t=0), Ins('SIZED', t=0, x=dd), Ins('DESTROY', t=1), Ins('SIZED', t=1, x=dd)]
+                if stmt == 0:
+                    fam += [Ins('SIZED', t=3, x=dd), Ins('GEXPR', t=3, s1=0, s2=1, x=0 * 1024 + 7 * 32 + 0)]
+                else:
+                    fam += [Ins('GEXPR', t=3, s1=0, s2=1, x=3 * 1024 + 5 * 32 + 0)]
+                align_family.append(fam)
+    for h_ in hist + two + three + full_cache[:(25 if tier == 'quick' else 400)] + align_family:
         states = [(st, live)]
         ok_hist = True
         problem = None
